@@ -325,7 +325,10 @@ def do_eig(ctx, yastn, rng, cfg, sym, cplx, which):
             U, S, V = yastn.linalg.eig(a, axes=axes, sU=sU, nU=nU, Uaxis=Uaxis, Vaxis=Vaxis)
         operand_unchanged(ctx, a, snap0, which, case)
     except Exception as e:  # noqa: BLE001
-        ctx.fail("oracle", f"c04:{which}:raises", f"{which} of a valid square matrix raised {type(e).__name__}: {e}", case=case, concrete=True)
+        key = f"c04:{which}:raises"
+        if which == "eig" and isinstance(e, ValueError) and "Biorthonormalization" in str(e):
+            key = "c04:eig:biorthonormalization-selfcheck"   # the backend's own sanity check (tolerance 1e-14 / 1e-12): see known_findings.json
+        ctx.fail("oracle", key, f"{which} of a valid square matrix raised {type(e).__name__}: {e}", case=case, concrete=True)
         return
     try:
         upos = Uaxis % (nr + 1)
